@@ -7,7 +7,9 @@ namespace Rtp.Props.C05
 open Rtp Rtp.Model Rtp.Pred Rtp.Pred.C05 Rtp.Proofs.HeaderExt
 open Rtp.Spec.OrderedMap (Op)
 
-/-- C01's header round trip in the form C05 uses -/
+/-- C01's header round trip in the form C05 uses.  (corea announced `c01_header_roundtrip_all` with
+    exactly this quantifier order; once it is on the branch this is
+    `fun h hwf => let ⟨bs, hm, _, hall⟩ := Rtp.Props.C01.c01_header_roundtrip_all h hwf; ⟨bs, hm, hall⟩`.) -/
 theorem headerRoundTrip : HeaderRoundTrip := by
   intro h hwf
   obtain ⟨bs, _, hm, _, _, _, _⟩ := Rtp.Props.C01.c01_header_roundtrip h hwf {} []
